@@ -62,6 +62,14 @@ def carriers_for(vals, rng, want_all=False):
     if n >= 2 and not all(isinstance(v, int) for v in vals) and any(float(v) == int(v) for v in vals): out.append('arr_obj')   # (an object ndarray mixing Python ints and floats)
     if n == 1: out.append('npstr')
     if n >= 2 and n % 2 == 0: out += ['nested', 'arr2d']
+    if n >= 4 and n % 2 == 0: out.append('arr2d_T')           # (a transposed view: the same 2 x n/2 matrix, not C-contiguous)
+    if n >= 2 and n % 2 == 0 and not all_int and float(vals[0]) == int(float(vals[0])): out.append('arr_obj2d')    # (a 2-D object ndarray, a Python int first, floats elsewhere)
+    if n >= 2 and float(vals[0]) == int(float(vals[0])) and not all_int:
+        ok = True
+        for v in vals[1:]:
+            with np.errstate(all='ignore'): c = np.float32(v)
+            if not np.isfinite(c) or Fraction(float(c)) != Fraction(v): ok = False; break
+        if ok: out.append('arr_obj_f32')                      # (an object ndarray: a Python int first, np.float32 scalars elsewhere)
     return out
 
 def dec_str(v):
@@ -94,6 +102,14 @@ def build_carrier(name, vals):
     if name == 'arr2d':
         dt = np.int64 if all(isinstance(v, int) for v in vals) and all(-2**63 <= v < 2**63 for v in vals) else np.float64
         return np.array(vals, dtype=dt).reshape(2, -1)
+    if name == 'arr2d_T':
+        dt = np.int64 if all(isinstance(v, int) for v in vals) and all(-2**63 <= v < 2**63 for v in vals) else np.float64
+        m_ = np.array(vals, dtype=dt).reshape(2, -1)
+        return np.ascontiguousarray(m_.T).T           # (the same matrix as a transposed view of its C-contiguous transpose)
+    if name == 'arr_obj2d':
+        return np.array([int(float(vals[0]))] + [int(v) if (isinstance(v, int)) else float(v) for v in vals[1:]] + [None], dtype=object)[:-1].reshape(2, -1)
+    if name == 'arr_obj_f32':
+        return np.array([int(float(vals[0]))] + [np.float32(v) for v in vals[1:]] + [None], dtype=object)[:-1]
     kind, dt = name.split(':')
     if kind == 'scalar': return np.dtype(dt).type(vals[0])
     return np.array(vals, dtype=dt)
@@ -106,7 +122,7 @@ def carrier_model_arr(name, vals):
     if name in ('list_str', 'str', 'arr_str', 'npstr'):
         # str2num: float(x) if '.' in x or n_frac > 0 else int(x) -> decided by caller via [str_is_float]
         raise ValueError('string carriers are resolved by the caller')
-    if name.startswith('arr:float') or name.startswith('scalar:float') or name.startswith('listnp:float') or name.startswith('tuplenp:float') or name == 'pyfloat' or name in ('decimal', 'arr_obj') or not all_int:
+    if name.startswith('arr:float') or name.startswith('scalar:float') or name.startswith('listnp:float') or name.startswith('tuplenp:float') or name == 'pyfloat' or name in ('decimal', 'arr_obj', 'arr_obj2d', 'arr_obj_f32') or not all_int:
         return ('f', [float(v) for v in vals])
     return ('i', [int(v) for v in vals])
 
@@ -326,7 +342,7 @@ def check_store_cases(cases, res, stratum, pid, huge=False, keep_array=False):
             j = next(k for k in range(len(spec_codes)) if k >= len(io['codes']) or io['codes'][k] != spec_codes[k])
             one = dict(small); one['index_in_original'] = j
             if not (huge or keep_array or c['carrier'] == 'arr_obj'):          # (with a huge neighbour, or in a mixed object array, the whole array is the failing input)
-                one['vals'] = [c['vals'][j]] * (2 if c['carrier'] in ('nested', 'arr2d') else 1)   # (two-row carriers need an even count)
+                one['vals'] = [c['vals'][j]] * (2 if c['carrier'] in ('nested', 'arr2d') else 1) if c['carrier'] not in ('arr2d_T', 'arr_obj2d', 'arr_obj_f32') else list(c['vals'])   # (two-row carriers need an even count)
             res.fail(one, pid + ': stored code differs from OVERFLOW(ROUND(v*2^n_frac))', expected=spec_codes[j], got=io['codes'][j] if j < len(io['codes']) else None)
             continue
         want_back = [Fraction(cd) / Fraction(2) ** nf for cd in io['codes']]
@@ -349,6 +365,6 @@ def case_shape(c):
     n = len(c['vals']); name = c['carrier']
     if c['route'] == 'setitem': return (n,)
     if name in ('pyint', 'pyfloat', 'str', 'str_exp', 'npstr', 'decimal') or name.startswith('scalar:'): return ()
-    if name in ('nested', 'arr2d'): return (2, n // 2)
+    if name in ('nested', 'arr2d', 'arr2d_T', 'arr_obj2d'): return (2, n // 2)
     return (n,)
 
